@@ -79,6 +79,55 @@ def second_error_scenario(rng, i):
             "features": ["catch", "second-error"]}
 
 
+def concurrent_scenario(rng, i):
+    """several clients end one open act at the same time: the act reports one ending, with the state it ended in"""
+    ev = rng.pick(["next", "abort", "skip", "submit", "error", "next"])
+    n = rng.pick([2, 3, 4])
+    w = {"id": "m1", "steps": [{"id": "s1", "acts": [{"id": "a1", "uses": gen.IRQ, "key": "ka1"}]}, {"id": "s2", "acts": [{"id": "a2", "uses": gen.IRQ, "key": "ka2"}]}]}
+    if rng.chance(1, 2):
+        w["steps"][0] = {"id": "s1", "branches": [{"id": "b1", "if": "(x == 0)", "steps": [{"id": "s11", "acts": [{"id": "a1", "uses": gen.IRQ, "key": "ka1"}]}]},
+                                                  {"id": "b2", "if": "(x == 0)", "steps": [{"id": "s12", "acts": [{"id": "a3", "uses": gen.IRQ, "key": "ka3"}]}]}]}
+    ops = [["deploy", 0], ["start", "m1", {"pid": "p1", "x": 0, "y": 0}], ["runall"],
+           ["conc", n, ev, "p1", {"nid": "a1", "k": -1}, {"ecode": "e1", "message": "x"} if ev == "error" else {}], ["runall"]]
+    for _ in range(3):
+        ops += [["act", "next", "p1", {"open": 0}, {}], ["runall"]]
+    return {"id": f"c08-conc-{i}", "config": {"keep": True, "dump_each": False}, "models": [w], "ops": ops,
+            "exprs": {"(x == 0)": ["bin", "==", ["var", "x"], ["lit", 0]]}, "features": ["concurrent"], "no_op_model": True}
+
+
+def runtime_act_reload_scenario(rng, i):
+    """acts created at run time without an id of their own (a pushed act, the act of a lifecycle hook) are open when the process is
+    reloaded, and are ended afterwards: their terminal message names the same node as their created message"""
+    store = "sqlite" if i % 2 == 0 else "mem"
+    cut = ["restart"] if (store == "sqlite" and rng.chance(1, 2)) else ["evict", "p1"]
+    s1 = {"id": "s1", "acts": [{"id": "a1", "uses": gen.IRQ, "key": "ka1"}]}
+    hook = rng.chance(1, 2)
+    if hook:
+        s1["setup"] = [{"uses": gen.IRQ, "key": "khook", "on": "created"}]
+    w = {"id": "m1", "steps": [s1, {"id": "s2", "acts": [{"id": "a2", "uses": gen.IRQ, "key": "ka2"}]}]}
+    ops = [["deploy", 0], ["start", "m1", {"pid": "p1", "x": 0, "y": 0}], ["runall"]]
+    if not hook:
+        ops += [["act", "push", "p1", {"nid": "s1", "k": -1}, {"uses": gen.IRQ, "key": "pushed"}], ["runall"]]
+    ops.append(cut)
+    for _ in range(5):
+        ops += [["act", rng.pick(["next", "next", "skip"]), "p1", {"open": rng.below(2)}, {}], ["runall"]]
+    return {"id": f"c08-rtact-{i}", "config": {"keep": True, "dump_each": False, "store": store}, "models": [w], "ops": ops, "exprs": {},
+            "features": ["runtime-act", "reload"], "no_op_model": True, "runtime_uses": gen.IRQ}
+
+
+def registered_package_scenario(rng, i):
+    """message and interrupt acts of packages a client has registered (they exist in the store only): they report like the built-in ones"""
+    acts = [{"id": "n1", "uses": "app.notify", "key": "kn1", "params": {"a": 1}}, {"id": "q1", "uses": "app.ask", "key": "kq1", "params": {}},
+            {"id": "m1a", "uses": gen.MSG, "key": "km1"}]
+    w = {"id": "m1", "steps": [{"id": "s1", "acts": rng.shuffle(acts)}, {"id": "s2", "acts": [{"id": "n2", "uses": "app.notify", "key": "kn2"}]}]}
+    ops = [["deploy", 0], ["start", "m1", {"pid": "p1", "x": 0, "y": 0}], ["runall"]]
+    for _ in range(3):
+        ops += [["act", "next", "p1", {"open": 0}, {}], ["runall"]]
+    return {"id": f"c08-pkg-{i}", "config": {"keep": True, "dump_each": False, "packages": [{"name": "app.notify", "run_as": "msg"}, {"name": "app.ask", "run_as": "irq"}]},
+            "models": [w], "ops": ops, "exprs": {}, "features": ["registered-package"], "no_op_model": True,
+            "uses_kind": {"app.notify": gen.MSG, "app.ask": gen.IRQ}}
+
+
 def cancel_scenario(rng, i):
     """a cancel of a completed act after the steps behind it have made partial progress: some of their acts have ended, some are open"""
     nsteps = rng.range(2, 3)
@@ -108,6 +157,12 @@ def gen_scenario(seed, i):
         return cancel_scenario(rng, i)
     if i % 10 == 7:
         return second_error_scenario(rng, i)
+    if i % 20 == 2:
+        return concurrent_scenario(rng, i)
+    if i % 20 == 12:
+        return runtime_act_reload_scenario(rng, i)
+    if i % 40 == 16:
+        return registered_package_scenario(rng, i)
     g = gen.WfGen(rng.fork("wf"), depth=rng.pick([1, 2, 2]), max_steps=3, max_branches=3, max_acts=3, p_if=15, p_branches=40,
                   needs=rng.chance(1, 5), mixed=rng.chance(1, 6), act_kinds=((gen.IRQ, 5), (gen.MSG, 3), (gen.SET, 1)), catches=rng.chance(1, 3))
     w = g.workflow("m1")
@@ -123,19 +178,28 @@ def gen_scenario(seed, i):
 
 def events_of(sc, res):
     um = uses_map(sc["models"][0])
+    # packages a client registered report like the built-in kind they run as; acts created at run time (hook acts, pushed acts) are not
+    # in the model: the scenario says what they use
+    kind_of = sc.get("uses_kind", {})
+    rt_uses = sc.get("runtime_uses", "")
+    raw_uses = {}
     evs, where = [], []
     for st in res.get("steps", []):
         i = st["op"]
         for o in st["obs"]:
             k = o.get("k")
             if k == "new" and o["pid"] == "p1":
-                evs.append(["new", o["tid"], o["nid"], o["kind"], um.get(o["nid"], "") if o["kind"] == "act" else "", o.get("level", 0), o.get("prev")])
+                u = um.get(o["nid"], rt_uses) if o["kind"] == "act" else ""
+                raw_uses[o["tid"]] = u
+                evs.append(["new", o["tid"], o["nid"], o["kind"], kind_of.get(u, u), o.get("level", 0), o.get("prev")])
                 where.append(i)
             elif k == "tr" and o["pid"] == "p1":
                 evs.append(["tr", o["tid"], o["new"]])
                 where.append(i)
             elif k == "gen" and o["pid"] == "p1" and o.get("retry", 0) == 0:
-                evs.append(["gen", o["tid"], o["m"], o["state"], o["type"], o["nid"], o["key"], o["uses"], o["pid"]])
+                # the message names the package its act uses (compared raw); for the monitor a registered package counts as the kind it runs as
+                mu = o["uses"] if raw_uses.get(o["tid"], o["uses"]) == o["uses"] else "uses-differs:" + o["uses"]
+                evs.append(["gen", o["tid"], o["m"], o["state"], o["type"], o["nid"], o["key"], kind_of.get(mu, mu), o["pid"]])
                 where.append(i)
     evs.append(["done"])
     where.append(len(sc["ops"]) - 1)
@@ -189,7 +253,7 @@ def run(ctx):
         if bad:
             ctx.violation("C08|delivered-differs-from-generated", f"op {bad[0]}: generated {bad[1][:6]} delivered {bad[2][:6]}", {"scenario": sc, "op": bad[0]})
             continue
-        r = opcorr.compare(sc, res, mod, ["new", "tr", "res", "queue", "gen"], with_dump=False)
+        r = None if sc.get("no_op_model") else opcorr.compare(sc, res, mod, ["new", "tr", "res", "queue", "gen"], with_dump=False)
         if r and r[1] not in ("unsupported", "exec-after-removal", "engine-stuck"):
             ctx.proof_break("correspondence: Op model", f"{sc['id']} op {r[0]} stream {r[1]}: {r[2][:300]}")
         else:
